@@ -30,7 +30,11 @@ let channels : (string * ((string * string) list -> string)) list = [
   ("prank", Chan_prank.run);
 ]
 
+let timeouts = ref 0
+let case_timeout = try int_of_string (Sys.getenv "VERIF_CASE_TIMEOUT") with _ -> 20
+
 let () =
+  Sys.set_signal Sys.sigalrm (Sys.Signal_handle (fun _ -> raise Conv.Case_timeout));
   let ic = if Array.length Sys.argv > 1 then open_in Sys.argv.(1) else stdin in
   (try
      while true do
@@ -39,8 +43,18 @@ let () =
          let (chan, args) = Conv.parse_line line in
          let id = try List.assoc "id" args with Not_found -> "?" in
          let out =
-           try (List.assoc chan channels) args
+           if !timeouts >= 8 then " error=skipped-after-repeated-model-timeouts" else
+           try
+             (* per-case watchdog: garbage produced by a broken implementation must not make
+                the model run away (e.g. an absurd interval length being expanded) *)
+             ignore (Unix.alarm case_timeout);
+             let r = (List.assoc chan channels) args in
+             ignore (Unix.alarm 0); r
            with
+           | Conv.Case_timeout -> ignore (Unix.alarm 0); incr timeouts;
+             if chan = "art" then " rt=FAIL(model-decoder-timeout)" else " error=model-timeout"
+           | Out_of_memory -> ignore (Unix.alarm 0); incr timeouts; Gc.compact ();
+             if chan = "art" then " rt=FAIL(model-decoder-out-of-memory)" else " error=model-out-of-memory"
            | Not_found -> " error=unknown-channel-" ^ chan
            | Failure m -> " error=" ^ String.map (fun c -> if c = ' ' then '_' else c) m
            | Stack_overflow -> " error=stack-overflow" in
